@@ -22,10 +22,20 @@
                     early exit or exhaustion — holds the answer Python list semantics gives on
                     `src` (this is C12's cache/history independence in its strongest form).
 
+  ASSUMPTION of every statement below: the underlying generator (`self._iter()`) never raises anything
+  but StopIteration — `next(gen)` on line 138 either yields the next value of the finite list `src`
+  or ends.  A generator that raises (e.g. a set holding a naive and an aware date) is outside the
+  model; there the real cached object differs from the uncached one afterwards (it ends up as a
+  complete EMPTY sequence, and the second operation raises the TypeError at `i < self._len` that
+  `safety` excludes under the assumption): known finding D-C11-genraise, checked by the oracle case
+  `generator_raises`.
+
   On the tree before fix a459cd4 (no `finally: release()`), the same model has a reachable
   deadlock; the harness keeps replaying that schedule on the implementation (c11.py sample).
 -/
 import DateutilVerif.Proofs.CacheGlobal
+import DateutilVerif.Model.CacheNested
+import DateutilVerif.Proofs.CacheNestedStep
 
 namespace C11
 open Cache Queries
@@ -123,21 +133,22 @@ theorem exec_bound {src qs} (l : List Tid) {s s'} (h : Reachable src qs s) (he :
 /-- **finished_answer.** Whatever the schedule, a finished thread holds exactly the answer of
     Python list semantics on `src` — fast path or generator path, early exit or exhaustion. -/
 theorem finished_answer {src qs s} (h : Reachable src qs s) (hsorted : Sorted src)
-    (t : Tid) (it : Iter) (hit : s.its[t]? = some it) (hd : it.pc = .done) :
+    (t : Tid) (it : Iter) (hit : s.its[t]? = some it) (hd : it.pc = .done) (hfits : fits it.q src) :
     it.res = some (spec it.q src) ∧ (it.q = .iterAll → it.yielded = src) := by
   obtain ⟨hi, hsrc⟩ := reachable_inv h
   obtain ⟨_, hl⟩ := hi.linv t it hit
   rw [hd] at hl
   simp only [] at hl
   rw [hsrc] at hl
-  exact ⟨hl.2.2 hsorted, hl.2.1⟩
+  exact ⟨hl.2.2 hsorted hfits, hl.2.1⟩
 
 /-- **all_complete.** A state where no thread can move — reached by every execution that keeps
     choosing enabled threads, after at most `measure (init src qs)` statements — has every thread
     finished; plain iterators have received exactly `src`, queries hold the specified answer. -/
 theorem all_complete {src qs s} (h : Reachable src qs s) (hstuck : ∀ t, step s t = none)
     (t : Tid) (it : Iter) (hit : s.its[t]? = some it) :
-    it.pc = .done ∧ (it.q = .iterAll → it.yielded = src) ∧ (Sorted src → it.res = some (spec it.q src)) := by
+    it.pc = .done ∧ (it.q = .iterAll → it.yielded = src) ∧
+    (Sorted src → fits it.q src → it.res = some (spec it.q src)) := by
   have hall : ∀ (t : Tid) (it : Iter), s.its[t]? = some it → it.pc = .done := by
     intro t it hit
     by_cases hd : it.pc = .done
@@ -145,7 +156,7 @@ theorem all_complete {src qs s} (h : Reachable src qs s) (hstuck : ∀ t, step s
     · obtain ⟨t', ht'⟩ := no_deadlock h ⟨t, it, hit, hd⟩
       rw [hstuck t'] at ht'; cases ht'
   have hd := hall t it hit
-  exact ⟨hd, fun hq => (finished_answer_aux h t it hit hd).1 hq, fun hs => (finished_answer h hs t it hit hd).1⟩
+  exact ⟨hd, fun hq => (finished_answer_aux h t it hit hd).1 hq, fun hs hq => (finished_answer h hs t it hit hd hq).1⟩
 where
   finished_answer_aux {src qs s} (h : Reachable src qs s) (t : Tid) (it : Iter) (hit : s.its[t]? = some it)
       (hd : it.pc = .done) : (it.q = .iterAll → it.yielded = src) ∧ True := by
@@ -188,5 +199,66 @@ example : ((runOld (init src11 [.iterAll, .iterAll]) deadlockSchedule).sh.lock,
 example : deadlocked step (run (init src11 [.iterAll, .iterAll]) deadlockSchedule) = false ∧
           (run (init src11 [.iterAll, .iterAll]) deadlockSchedule).its.map (fun it => (it.pc, it.yielded.length))
             = [(.done, 11), (.done, 11)] := by decide +kernel
+
+/-! ### nested cached objects: one lock per object vs one lock for all
+
+`Nested` (Model/CacheNested.lean) is the machine of cached sets whose member rules are cached too:
+line 138 of a set — executed with the SET's lock held — pulls from the member's `_iter_cached`,
+which acquires the MEMBER's lock.  With a lock per object the order is parent → child only.  With
+ONE non-re-entrant lock for all objects (`shared := true`: a class-level `_cache_lock`) a single
+thread listing a cached set over a cached rule blocks on itself at the member's `acquire()`. -/
+
+/-- **nested_no_deadlock_partial.** Cached sets over cached member rules, ONE LOCK PER OBJECT, any
+    number of sets, members (shared between sets and roles), runners and any schedule: in every state
+    reachable from a fresh one, if some runner is unfinished then some runner can move.
+    `_partial`: depth 1 only — the members of a set are cached RULES.  `rruleset.rrule()` also accepts a
+    cached rruleset as a member (it only needs `__iter__`), giving deeper nesting; the same parent → child
+    argument applies level by level but is not formalised here. -/
+theorem nested_no_deadlock_partial {ns0 ns : Nested.NState} (h0 : Nested.Fresh ns0) (h : Nested.NReach ns0 ns)
+    (hun : ∃ r, Nested.IsRunner ns r ∧ Nested.finished ns r = false) :
+    ∃ r, Nested.IsRunner ns r ∧ (Nested.step ns r).isSome = true :=
+  Nested.nested_no_deadlock (Nested.nreach_inv h0 h) hun
+
+/-- **nested_all_complete_partial.** A reachable state in which no runner can move has every runner
+    finished, and every finished thread of a set holds the list-semantics answer on the set's merged
+    sequence (every finished direct thread of a member: on the member's sequence). -/
+theorem nested_all_complete_partial {ns0 ns : Nested.NState} (h0 : Nested.Fresh ns0) (h : Nested.NReach ns0 ns)
+    (hstuck : ∀ r, Nested.IsRunner ns r → Nested.step ns r = none) :
+    (∀ r, Nested.IsRunner ns r → Nested.finished ns r = true) ∧
+    (∀ (si : Nat) (S : Nested.SetM) (t : Tid) (it : Iter), ns.sets[si]? = some S → S.st.its[t]? = some it → it.pc = .done →
+        Sorted S.st.sh.src → fits it.q S.st.sh.src → it.res = some (spec it.q S.st.sh.src)) ∧
+    (∀ (m : Nat) (M : Cache.State) (t : Tid) (it : Iter), ns.members[m]? = some M → M.its[t]? = some it → it.pc = .done →
+        Sorted M.sh.src → fits it.q M.sh.src → it.res = some (spec it.q M.sh.src)) := by
+  have hi := Nested.nreach_inv h0 h
+  refine ⟨?_, ?_, ?_⟩
+  · intro r hr
+    cases hf : Nested.finished ns r with
+    | true => rfl
+    | false =>
+      obtain ⟨r', hr', hen⟩ := Nested.nested_no_deadlock hi ⟨r, hr, hf⟩
+      rw [hstuck r' hr'] at hen; cases hen
+  · intro si S t it hS hit hd hsorted hfits
+    obtain ⟨_, hl⟩ := (hi.sinv si S hS).linv t it hit
+    rw [hd] at hl
+    exact hl.2.2 hsorted hfits
+  · intro m M t it hM hit hd hsorted hfits
+    obtain ⟨_, hl⟩ := (hi.minv m M hM).linv t it hit
+    rw [hd] at hl
+    exact hl.2.2 hsorted hfits
+
+def nestedOwn := Nested.init [[0, 10, 20]] [([.cached 0], [])] [(1, .iterAll)] false
+def nestedShared := Nested.init [[0, 10, 20]] [([.cached 0], [])] [(1, .iterAll)] true
+
+-- one lock for all: a reachable single-thread deadlock …
+example : ∃ sched, Nested.deadlocked (Nested.run nestedShared.1 nestedShared.2 sched) nestedShared.2 = true :=
+  ⟨List.replicate 40 0, by decide +kernel⟩
+-- … stuck on line 132 of the member's iterator while the set's thread sits on line 138 holding the lock
+example : (let ns := Nested.run nestedShared.1 nestedShared.2 (List.replicate 40 0)
+           (ns.sets.map (fun S => (Nested.pcOf S.st 0, S.st.sh.lock)), ns.members.map (fun M => (Nested.pcOf M 0, M.sh.lock))))
+          = ([(.l138, some 0)], [(.l132, none)]) := by decide +kernel
+-- own locks: the same schedule (any long enough one) finishes with the merged sequence
+example : (let ns := Nested.run nestedOwn.1 nestedOwn.2 (List.replicate 150 0)
+           (Nested.finished ns (1, 0), ns.sets.map (fun S => S.st.sh.cache), Nested.deadlocked ns nestedOwn.2))
+          = (true, [[0, 10, 20]], false) := by decide +kernel
 
 end C11
